@@ -1,4 +1,5 @@
 import AdeuModel.Lemmas.Engine
+import AdeuModel.Lemmas.Style
 /-
 C16 — inserted text blends in: context formatting inherited, Markdown rendered.
 `insRuns text style suppress` are the runs `track_insert` creates for one line; `style` is the run
@@ -13,6 +14,19 @@ source rather than document defaults. -/
 theorem C16_inherits (text : Str) (style : Option Run) (sup : Bool) :
     ∀ c ∈ insRuns text style sup, ∃ r, c = InsChild.run r ∧ r.rest = (style.map (·.rest)).getD [] :=
   insRuns_rest text style sup
+
+/-- The style source of a pure insertion (`_determine_style_source` as `placeInsertion` applies it): the anchor
+run, or the run that follows it when the new text ends with a blank — in either case an original run of the
+*same paragraph* adjacent to the insertion point (`runsOfNodes p.nodes`: direct runs and runs inside
+insertions / deletions / hyperlinks of that paragraph), never a run of another paragraph or a document default.
+Together with `C16_inherits` this is the inheritance clause for insertions. -/
+theorem C16_style_source_in_paragraph (p : Para) (a : RunRef) (before : Bool) (newText : Str) (r : Run)
+    (h : (if before then getRun p.nodes a.loc
+          else match nextRun p.nodes a.loc with
+            | none => getRun p.nodes a.loc
+            | some nr => if endsWithSpace newText then some nr else getRun p.nodes a.loc) = some r) :
+    r ∈ runsOfNodes p.nodes :=
+  insertion_style_source_in_paragraph p a before newText r h
 
 /-- New text without a well-formed span is inserted literally, character for character, as one run.
 "Well-formed span" is `findSpan`: `**x**` with non-empty content that neither starts nor ends with
